@@ -1233,13 +1233,26 @@ class NpModule:
             raise PyRaise(PyExc(TypeError, ("isnan(None)",)))
         raise Unsupported("np.isnan")
 
-    def logical_and(self, a, b):
+    def _logical(self, a, b, f, out=None, **k):
+        if k:
+            raise Unsupported("ufunc options")
         _same_space(a, b)
-        return a.new(z3.And(a.nonzero_term(), b.nonzero_term()), "bool")
+        res = f(a.nonzero_term(), b.nonzero_term())
+        if out is None:
+            return a.new(res, "bool")
+        if not isinstance(out, VArr):
+            raise Unsupported("out= of a logical ufunc is not an array")
+        # out=<array>: the result is written INTO that buffer (cast to its dtype) and the same array object is returned
+        _same_space(a, out)
+        out.term = z3.simplify(_cast_term(res, "bool", out.dtype_name))
+        cur().event("arr-write", out.buf, out.owner)
+        return out
 
-    def logical_or(self, a, b):
-        _same_space(a, b)
-        return a.new(z3.Or(a.nonzero_term(), b.nonzero_term()), "bool")
+    def logical_and(self, a, b, out=None, **k):
+        return self._logical(a, b, lambda x, y: z3.And(x, y), out, **k)
+
+    def logical_or(self, a, b, out=None, **k):
+        return self._logical(a, b, lambda x, y: z3.Or(x, y), out, **k)
 
     def isin(self, arr, test, invert=False, **k):
         if not isinstance(arr, VArr):
